@@ -2072,6 +2072,12 @@ def disk_partitions(all=False):
     return _psplatform.disk_partitions(all)
 
 
+# Held while the raw counters are read *and* passed to wrap_numbers():
+# a thread still holding an older snapshot than the one already seen
+# by another thread would otherwise be mistaken for a counter wrap.
+_nowrap_lock = threading.Lock()
+
+
 def disk_io_counters(perdisk=False, nowrap=True):
     """Return system disk I/O statistics as a namedtuple including
     the following fields:
@@ -2105,11 +2111,12 @@ def disk_io_counters(perdisk=False, nowrap=True):
     executed first otherwise this function won't find any disk.
     """
     kwargs = dict(perdisk=perdisk) if LINUX else {}
-    rawdict = _psplatform.disk_io_counters(**kwargs)
-    if not rawdict:
-        return {} if perdisk else None
-    if nowrap:
-        rawdict = _wrap_numbers(rawdict, 'psutil.disk_io_counters')
+    with _nowrap_lock:
+        rawdict = _psplatform.disk_io_counters(**kwargs)
+        if not rawdict:
+            return {} if perdisk else None
+        if nowrap:
+            rawdict = _wrap_numbers(rawdict, 'psutil.disk_io_counters')
     nt = getattr(_psplatform, "sdiskio", _common.sdiskio)
     if perdisk:
         for disk, fields in rawdict.items():
@@ -2156,11 +2163,12 @@ def net_io_counters(pernic=False, nowrap=True):
     "net_io_counters.cache_clear()" can be used to invalidate the
     cache.
     """
-    rawdict = _psplatform.net_io_counters()
-    if not rawdict:
-        return {} if pernic else None
-    if nowrap:
-        rawdict = _wrap_numbers(rawdict, 'psutil.net_io_counters')
+    with _nowrap_lock:
+        rawdict = _psplatform.net_io_counters()
+        if not rawdict:
+            return {} if pernic else None
+        if nowrap:
+            rawdict = _wrap_numbers(rawdict, 'psutil.net_io_counters')
     if pernic:
         for nic, fields in rawdict.items():
             rawdict[nic] = _common.snetio(*fields)
